@@ -239,6 +239,8 @@ func directEffects(in ssa.Instruction, e *effects, localName func(a *ssa.Alloc) 
 		e.addMap(x.Type().Underlying().(*types.Map))
 	case *ssa.MakeChan, *ssa.MakeClosure:
 		e.alloc = true
+	case *ssa.Send:
+		e.trace = true
 	case *ssa.Convert:
 		if _, ok := x.Type().Underlying().(*types.Slice); ok {
 			e.alloc = true
